@@ -6,7 +6,7 @@ From Coq Require Import List Arith Bool NArith.
 From GV Require Import Base.Result Gen.TokenTypes Gen.Defs Gen.Instr Model.Parser Model.BuilderWL Model.Compile
   Spec.WfCode Spec.Depth Spec.Reloc Proofs.C05.Known Proofs.C05.Operands Proofs.C05.Statements
   Proofs.C06.Balanced Proofs.C06.StaticFull Proofs.C20.Bounded Proofs.C20.Statements
-  Proofs.Builder.BState Proofs.Builder.RootsSim Proofs.Builder.ValidTree.
+  Proofs.Builder.BState Proofs.Builder.RootsSim Proofs.Builder.ValidTree Proofs.Builder.NoForeign.
 Import ListNotations.
 
 (* the statement of the link itself, in the vocabulary of the property files *)
@@ -139,3 +139,7 @@ Proof.
   - exact (C20_relocated_full_builder_proof _ _ _ _ _ _ _ _ _ Ht H1 H2 Hb Hb0).
   - exact (C20_frame_full_builder_proof _ _ _ _ _ _ _ Ht H1 H2 Hb).
 Qed.
+
+Lemma C20_no_foreign_jump_builder_proof : forall nodes init lit fuel root,
+  build nodes init lit fuel root <> Err E_foreign_jump.
+Proof. exact build_no_foreign_jump. Qed.
